@@ -29,10 +29,10 @@ m = {
     "hooks": {"guard": "verif", "enable": "go build -tags verif (the harness uses only the exported API; no source hooks exist)",
               "baseline_off_cmd": "cd /repo && go test -count=1 ./...", "source_commits": [], "add_only": True},
     "engines": [{"name": "lean4-proof+correspondence", "path": "/verif/check", "serves_properties": [p["id"] for p in props],
-                 "kind_free_text": "Lean 4 model + theorems (lean/), translator regenerating tables from /repo (extract/), Go correspondence harness piping cases to the compiled Lean driver (harness/)"}],
+                 "kind_free_text": "Lean 4 model + theorems (lean/), translator regenerating tables AND Lean definitions of the visitor and the Operation implementations from /repo (extract/), Go correspondence harness piping cases to the compiled Lean driver (harness/)"}],
     "checks": checks,
     "not_applicable": [],
-    "notes": "Seven genuine defects were repaired in /repo by `fix:` commits (known_findings.txt, DESIGN.md §7); one known finding (C09, components >= 2^64) is recorded.",
+    "notes": "Ten genuine defects (D1-D10) were repaired in /repo by `fix:` commits (known_findings.txt, DESIGN.md §7); two known findings are recorded (C09: version components >= 2^64; C07: a value nested deeper than the goroutine stack). The visitor and the Operation implementations are translated from the Go source on every run and proved equal to the model (DESIGN.md §4.4).",
 }
 json.dump(m, open(os.path.join(ROOT, "MANIFEST.json"), "w"), indent=1)
 print("MANIFEST.json written with", len(checks), "checks")
